@@ -82,6 +82,13 @@ func genC16(r *Rand, tier string) *Case {
 				c.Programs[pk] = &Program{Stmts: []*StmtProg{{Cols: []ColSpec{{Name: "a", OID: pgwire.OIDInt4}}, Ops: append(pops, Op{K: "panic"})}}}
 				steps = append(steps, Step{Msgs: []pgwire.FMsg{{K: "P", S1: "", S2: pk}, {K: "B"}, {K: "E"}, {K: "S"}}})
 			}
+			if r.Chance(1, 10) {
+				// a complete but malformed message of an admitted type (no NUL
+				// terminator, a Bind that ends inside its fields): whatever the server
+				// answers, the command is over and Close does not wait for it
+				bad := []pgwire.FMsg{{K: "Q", S1: key, NoNul: true}, {K: "P", S1: "", S2: key, NoNul: true}, {K: "typed", T: 'B', Data: []byte{0, 0, 0}}, {K: "typed", T: 'E', Data: []byte("p")}, {K: "typed", T: 'D', Data: []byte{}}}
+				steps = append(steps, Step{Msgs: []pgwire.FMsg{bad[r.Intn(len(bad))]}})
+			}
 			if r.Chance(1, 4) {
 				steps = append(steps, Step{Msgs: []pgwire.FMsg{{K: "P", S1: "", S2: key}, {K: "B"}, {K: "E"}, {K: "S"}}})
 			} else {
@@ -130,6 +137,10 @@ func genC16(r *Rand, tier string) *Case {
 	if r.Chance(1, 12) {
 		// Close overtakes the start of Serve
 		sc.CloseFirst = true
+	}
+	if r.Chance(1, 8) {
+		// closing the listener reports an error: Close still waits for the handlers
+		sc.ListenerCloseErr = true
 	}
 	if r.Chance(1, 8) {
 		// the server listens on two listeners: Close stops both accept loops
@@ -370,7 +381,7 @@ func checkC16(x *Exec, c *Case) ([]Violation, bool) {
 func init() {
 	register(&Prop{
 		ID: "C16", Level: "exploration", QuickS: 30, ThoroughS: 480, Race: true,
-		Rule: "seeded shutdown scenarios under the seeded scheduler: 1-3 connections steered into the states idle-in-Read / half a message delivered / about to start a handler / inside a handler (statement functions with scripted yield points), plus 1-3 goroutines calling Close() once or twice; schedule points at every transport operation, callback entry and row write, at the hand-placed hooks (close.enter/decided/signalled/wait, cmd.before-admission/admitted/done) and in front of every atomic, WaitGroup, channel and mutex operation of the library (spliced by cmd/instrument, so the windows between closing.Load, closing.Store, close(closer), wg.Add and wg.Wait are all steerable); strategies: uniform, PCT (depth 1-3) and, per case, 6 hold-until plans drawn over the schedule points discovered in the first run (park a connection at p until a Close caller has passed q, the reverse, and one Close caller against another); in a fifth of the scenarios one peer stalls (from some write on it never reads again: the server's write blocks for good); oracle: event-order monitor over global sequence numbers (no Close-caller panic, no handler/parser interval straddling a Close return, no handler start after the first Close return, every Close returns once handlers may finish, Serve returns nil), process survival, and the -race shard with the HB-transparent scheduler; authenticating servers with peers that go silent at or inside the password message; scenario CloseFirst (one Close returns before Serve is called: Serve must return, no handler may run); servers with two listeners (Serve called twice); handlers that stay busy for 0.1 s - 1 h of simulated time; query texts of two or three statements; statement functions that panic inside an extended-protocol Execute; a listener whose Accept fails (not net.ErrClosed) before Close is called; non-trivial = a handler or parser event fell between the call and the return of some Close; distinct = distinct case content hashes; distinct_interleavings = distinct (task, point) decision sequences",
+		Rule: "seeded shutdown scenarios under the seeded scheduler: 1-3 connections steered into the states idle-in-Read / half a message delivered / about to start a handler / inside a handler (statement functions with scripted yield points), plus 1-3 goroutines calling Close() once or twice; schedule points at every transport operation, callback entry and row write, at the hand-placed hooks (close.enter/decided/signalled/wait, cmd.before-admission/admitted/done) and in front of every atomic, WaitGroup, channel and mutex operation of the library (spliced by cmd/instrument, so the windows between closing.Load, closing.Store, close(closer), wg.Add and wg.Wait are all steerable); strategies: uniform, PCT (depth 1-3) and, per case, 6 hold-until plans drawn over the schedule points discovered in the first run (park a connection at p until a Close caller has passed q, the reverse, and one Close caller against another); in a fifth of the scenarios one peer stalls (from some write on it never reads again: the server's write blocks for good); oracle: event-order monitor over global sequence numbers (no Close-caller panic, no handler/parser interval straddling a Close return, no handler start after the first Close return, every Close returns once handlers may finish, Serve returns nil), process survival, and the -race shard with the HB-transparent scheduler; authenticating servers with peers that go silent at or inside the password message; scenario CloseFirst (one Close returns before Serve is called: Serve must return, no handler may run); servers with two listeners (Serve called twice); handlers that stay busy for 0.1 s - 1 h of simulated time; query texts of two or three statements; complete but malformed messages of admitted types; a listener whose Close reports an error; statement functions that panic inside an extended-protocol Execute; a listener whose Accept fails (not net.ErrClosed) before Close is called; non-trivial = a handler or parser event fell between the call and the return of some Close; distinct = distinct case content hashes; distinct_interleavings = distinct (task, point) decision sequences",
 		Components: []string{
 			"real: Serve accept loop and closer goroutine, Close, per-command admission (closing/wg/closer), command loop, handlers, buffer reader/writer",
 			"stub: listener/connections (simulated), Close callers (harness goroutines), handler programs; scheduler: harness/kernel.go decides which goroutine runs at every schedule point",
